@@ -62,12 +62,22 @@ func GetMessageOfEviction(ssn *framework.Session, actionType framework.ActionTyp
 				"Failed to get preemptee job for task: <%s/%s>", preempteeTask.Namespace, preempteeTask.Name)
 			return ""
 		}
-		reclaimerQueue := ssn.ClusterInfo.Queues[preemptorJob.Queue]
-		reclaimerParentQueue := ssn.ClusterInfo.Queues[reclaimerQueue.ParentQueue]
-		reclaimeeQueue := ssn.ClusterInfo.Queues[preempteeJob.Queue]
-		reclaimeeParentQueue := ssn.ClusterInfo.Queues[reclaimeeQueue.ParentQueue]
-
 		msg := api.GetReclaimMessage(preempteeTask, preemptorJob)
+
+		reclaimerQueue, reclaimerQueueFound := ssn.ClusterInfo.Queues[preemptorJob.Queue]
+		reclaimeeQueue, reclaimeeQueueFound := ssn.ClusterInfo.Queues[preempteeJob.Queue]
+		if !reclaimerQueueFound || !reclaimeeQueueFound {
+			return msg
+		}
+		// A top level queue has no parent queue: it stands for itself when the two queues are compared one level up.
+		reclaimerParentQueue, found := ssn.ClusterInfo.Queues[reclaimerQueue.ParentQueue]
+		if !found {
+			reclaimerParentQueue = reclaimerQueue
+		}
+		reclaimeeParentQueue, found := ssn.ClusterInfo.Queues[reclaimeeQueue.ParentQueue]
+		if !found {
+			reclaimeeParentQueue = reclaimeeQueue
+		}
 
 		var queueDetails string
 		if reclaimeeQueue.ParentQueue == reclaimerQueue.ParentQueue {
